@@ -516,3 +516,224 @@ func F13Case() *Case {
 		Files:    []FileSpec{{Name: "a.go", Calls: []CallSpec{Call("hash", "h", 0), Call("equal", "h_T", 1)}}},
 		Variants: []Variant{{false, false}}, KeepDerived: true, OtherFile: "z_other.go"}
 }
+
+// ---------------------------------------------------------------- C11: types from same-named packages
+
+// ImportedC11: argument types that are SPELLED alike but are different types: `User` of two imported
+// packages that are both named model (t/store/model, t/wire/model) and a local `User`, by pointer and
+// by value. All assignments of <= 2 equal calls to 3 names x these types, + random packages of 3..5
+// calls, under the four flag combinations.
+func ImportedC11(r *rand.Rand, n int) []*Case {
+	extra := map[string]string{
+		"store/model/model.go": "package model\n\ntype User struct {\n\tID   int\n\tName string\n}\n",
+		"wire/model/model.go":  "package model\n\ntype User struct {\n\tID   int\n\tName string\n}\n",
+	}
+	simp, wimp := `smodel "t/store/model"`, `wmodel "t/wire/model"`
+	local := "type User struct {\n\tID   int\n\tName string\n}"
+	typs := []TypeSpec{
+		{Go: "*smodel.User", Wire: "(p (nm 1 User (st int string)))", Import: simp},
+		{Go: "*wmodel.User", Wire: "(p (nm 2 User (st int string)))", Import: wimp},
+		{Go: "*User", Wire: "(p (nm 0 User (st int string)))", Decl: local},
+		{Go: "smodel.User", Wire: "(nm 1 User (st int string))", Import: simp},
+		{Go: "wmodel.User", Wire: "(nm 2 User (st int string))", Import: wimp},
+	}
+	plugins := Plugins("derive", nil)
+	pfx := map[string]string{"equal": "deriveEqual", "hash": "deriveHash"}
+	names := []string{"deriveEqual", "deriveEqual_", "deriveEqual_U"}
+	var out []*Case
+	emit := func(calls []CallSpec) {
+		c := &Case{ID: fmt.Sprintf("i%d", len(out)), Stream: "imported", Types: typs, Plugins: plugins, Variants: AllVariants, Extra: extra}
+		decorate(r, c, calls, pfx)
+		out = append(out, c)
+	}
+	for n1 := range names {
+		for t1 := range typs {
+			emit([]CallSpec{Call("equal", names[n1], t1)})
+			for n2 := range names {
+				for t2 := range typs {
+					emit([]CallSpec{Call("equal", names[n1], t1), Call("equal", names[n2], t2)})
+				}
+			}
+		}
+	}
+	for i := 0; i < n; i++ {
+		var calls []CallSpec
+		for j := 0; j < 3+r.Intn(3); j++ {
+			pl := []string{"equal", "equal", "hash"}[r.Intn(3)]
+			nm := names[r.Intn(len(names))]
+			if pl == "hash" {
+				nm = []string{"deriveHash", "deriveHash_", "deriveHash_U"}[r.Intn(3)]
+			}
+			calls = append(calls, Call(pl, nm, r.Intn(len(typs))))
+		}
+		emit(calls)
+	}
+	return out
+}
+
+// ---------------------------------------------------------------- C12: unusual override values
+
+var goKeywords = []string{"break", "case", "chan", "const", "continue", "default", "defer", "else", "fallthrough", "for",
+	"func", "go", "goto", "if", "import", "interface", "map", "package", "range", "return", "select", "struct", "switch", "type", "var"}
+var goPredeclared = []string{"len", "cap", "new", "make", "nil", "true", "false", "string", "int", "error", "any", "append"}
+
+// weirdValue: override values of unusual shape. restricted = the bare prefix is not usable as a
+// function name of its own (keyword), would shadow a predeclared identifier or could be captured by a
+// parameter / local of the emitted code: such prefixes are given only to (plugin, type) combinations
+// for which goderive mints no helper named by the bare prefix (see .work/new-defects-names.md).
+type weirdValue struct {
+	v          string
+	class      string
+	restricted bool
+}
+
+func weirdValues() []weirdValue {
+	var out []weirdValue
+	for _, k := range goKeywords {
+		out = append(out, weirdValue{k, "keyword", true})
+	}
+	for _, k := range goPredeclared {
+		out = append(out, weirdValue{k, "predeclared", true})
+	}
+	for c := 'a'; c <= 'z'; c++ {
+		out = append(out, weirdValue{string(c), "letter", true})
+	}
+	for _, k := range []string{"kipQz_", "mk2", "zed_9", "wob7_", "vax__"} {
+		out = append(out, weirdValue{k, "tail", false})
+	}
+	for _, k := range []string{"π", "é", "πr", "éq", "世"} {
+		out = append(out, weirdValue{k, "nonascii", false})
+	}
+	for _, k := range []string{"Eq", "Cmp", "Hsh", "Srt", "X"} {
+		out = append(out, weirdValue{k, "upper", false})
+	}
+	return out
+}
+
+func longestHandler(pls []PluginSpec, name string) string {
+	best, bl := "", -1
+	for _, p := range pls {
+		if strings.HasPrefix(name, p.Prefix) && len(p.Prefix) > bl {
+			best, bl = p.Name, len(p.Prefix)
+		}
+	}
+	return best
+}
+
+// WeirdC12: groups (default-named package, renamed package) whose -pluginprefix values are Go keywords,
+// predeclared identifiers, single letters, end in `_` or a digit, are non-ASCII, start upper-case, or
+// are another plugin's default prefix (swapped in pairs). Call names are prefix + non-empty suffix,
+// so no call name is a keyword. Every value of weirdValues() is used at least once when n >= len.
+func WeirdC12(r *rand.Rand, n int) []*Case {
+	decl := "type S struct {\n\tA int\n\tB string\n}"
+	typs := []TypeSpec{
+		{Go: "*S", Wire: "(p (nm 0 S (st)))", Decl: decl},
+		{Go: "[]int", Wire: "(sl int)", Decl: decl},
+		{Go: "[]string", Wire: "(sl string)", Decl: decl},
+		{Go: "map[string]int", Wire: "(m string int)", Decl: decl},
+	}
+	// (plugin, type) combinations without a helper named by a bare prefix / with such helpers
+	flat := map[string][]int{"equal": {0, 1}, "deepcopy": {0}, "sort": {1, 2}, "keys": {3}, "set": {1, 2}}
+	deep := map[string][]int{"compare": {0}, "hash": {0, 2}, "unique": {2}}
+	flatNames := []string{"equal", "deepcopy", "sort", "keys", "set"}
+	deepNames := []string{"compare", "hash", "unique"}
+	vals := weirdValues()
+	swaps := [][2]string{{"equal", "compare"}, {"keys", "set"}, {"sort", "hash"}, {"deepcopy", "unique"}}
+	def := map[string]string{}
+	for _, d := range DefaultPlugins {
+		def[d[0]] = d[1]
+	}
+	suffixes := []string{"Of", "X1", "Zed"}
+	var out []*Case
+	for g := 0; g < n; g++ {
+		var ov map[string]string
+		var used []string
+		for try := 0; ; try++ {
+			ov = map[string]string{}
+			used = nil
+			if g%8 == 7 {
+				// swapped defaults
+				sw := swaps[r.Intn(len(swaps))]
+				ov[sw[0]], ov[sw[1]] = def[sw[1]], def[sw[0]]
+				used = []string{sw[0], sw[1]}
+			} else {
+				first := vals[(g+try)%len(vals)]
+				k := 1 + r.Intn(3)
+				seen := map[string]bool{}
+				ws := []weirdValue{first}
+				anyRestricted := first.restricted
+				for i := 1; i < k; i++ {
+					w := vals[r.Intn(len(vals))]
+					ws = append(ws, w)
+					anyRestricted = anyRestricted || w.restricted
+				}
+				for _, w := range ws {
+					var p string
+					// helpers are minted across plugins (unique -> keys, set; clone -> deepcopy): with one
+					// restricted prefix in the map, the whole package stays helper-free
+					if anyRestricted || r.Intn(2) == 0 {
+						p = flatNames[r.Intn(len(flatNames))]
+					} else {
+						p = deepNames[r.Intn(len(deepNames))]
+					}
+					if seen[p] || seen["v:"+w.v] {
+						continue
+					}
+					seen[p], seen["v:"+w.v] = true, true
+					ov[p] = w.v
+					used = append(used, p)
+				}
+			}
+			// keep the F13 class (P and P_… together) and dispatch capture out of this stream
+			pls := Plugins("derive", ov)
+			ok := true
+			for _, a := range pls {
+				for _, b := range pls {
+					if a.Name != b.Name && strings.HasPrefix(b.Prefix, a.Prefix+"_") {
+						ok = false
+					}
+				}
+			}
+			for _, p := range used {
+				for _, sfx := range suffixes {
+					if longestHandler(pls, ov[p]+sfx) != p {
+						ok = false
+					}
+				}
+			}
+			if ok || try > 50 {
+				break
+			}
+		}
+		sort.Strings(used)
+		type pc struct {
+			plugin, suffix string
+			typ            int
+		}
+		var pcs []pc
+		for _, p := range used {
+			ts := flat[p]
+			if ts == nil {
+				ts = deep[p]
+			}
+			pcs = append(pcs, pc{p, suffixes[r.Intn(len(suffixes))], ts[r.Intn(len(ts))]})
+		}
+		mk := func(id, rename string, o map[string]string) *Case {
+			pl := Plugins("derive", o)
+			pre := map[string]string{}
+			for _, x := range pl {
+				pre[x.Name] = x.Prefix
+			}
+			calls := make([]CallSpec, len(pcs))
+			for i, x := range pcs {
+				calls[i] = Call(x.plugin, pre[x.plugin]+x.suffix, x.typ)
+			}
+			return &Case{ID: id, Stream: "c12", Types: typs, Plugins: pl, GoderiveArgs: PrefixArgs("derive", o),
+				Variants: []Variant{{false, false}}, KeepDerived: true, Group: fmt.Sprintf("w%d", g), Rename: rename,
+				Files: []FileSpec{{Name: "a.go", Calls: calls}}}
+		}
+		out = append(out, mk(fmt.Sprintf("w%d-default", g), "default", nil))
+		out = append(out, mk(fmt.Sprintf("w%d-weird", g), "plugin-weird", ov))
+	}
+	return out
+}
